@@ -4,6 +4,8 @@ import (
 	"fmt"
 	"go/token"
 	"go/types"
+	"regexp"
+	"sort"
 	"strings"
 
 	"golang.org/x/tools/go/ssa"
@@ -236,6 +238,7 @@ func ruleR06_3(w *World, r *Report) {
 		return
 	}
 	okEnd := false
+	endDetail := ""
 	for _, e := range d.stores(".Sseq.End") {
 		if !strings.HasPrefix(d.name(e.n, e.in.(*ssa.Store).Addr), "$0.datatypeDoc.") {
 			continue
@@ -246,9 +249,94 @@ func ruleR06_3(w *World, r *Report) {
 		}
 		if d.dominates(e, upd) {
 			okEnd = true
+			continue
+		}
+		// the end of the log is left alone by a read-only request (which never derived currentCP.Sseq from it, F27):
+		// the store runs before the update on every path except those of a read-only handler
+		if d.reachable(upd, e) || !d.reachable(e, upd) {
+			okEnd = false
+			break
+		}
+		// both live in the commit function: their conditions relative to its entry are compared
+		if e.n != upd.n {
+			okEnd = false
+			break
+		}
+		pe, ok1 := d.localPaths(e.n, e.in, nil)
+		pu, ok2 := d.localPaths(upd.n, upd.in, nil)
+		common := map[string]int{}
+		for _, p := range pu {
+			seen := map[string]bool{}
+			for _, l := range p.strs {
+				if !seen[l] {
+					seen[l] = true
+					common[l]++
+				}
+			}
+		}
+		guarded := ok1 && ok2 && len(pe) > 0
+		for _, p := range pe {
+			for _, l := range p.strs {
+				if common[l] == len(pu) {
+					continue
+				}
+				if l != "!$0.isReadOnly" {
+					guarded = false
+				}
+			}
+		}
+		okEnd = guarded
+		if !guarded {
+			endDetail = fmt.Sprintf(" [paths to the store: %v; to the update: %v]", strsOf(pe), strsOf(pu))
+			break
 		}
 	}
-	r.Check(okEnd, owner+"/end of log", d.pos(u, upd), "Sseq.End = currentCP.Sseq before UpdateDatatype", "the recorded end of the log is not set from the handler's current server sequence before the datatype document is updated")
+	// the end of the log is written back only by a handler that derived its server sequence from it: every handler
+	// flag under which "currentCP.Sseq = Sseq.End" is skipped (today: read-only) must also guard the write-back (F27)
+	flagRe := regexp.MustCompile(`^!?\$0\.[A-Za-z]+$`)
+	var flags []string
+	for _, st := range d.stores("$0.currentCP.Sseq") {
+		if !strings.HasSuffix(d.name(st.n, st.in.(*ssa.Store).Val), ".Sseq.End") {
+			continue
+		}
+		lp, okl := d.localPaths(st.n, st.in, nil)
+		if !okl || len(lp) == 0 {
+			continue
+		}
+		cnt := map[string]int{}
+		for _, p := range lp {
+			seen := map[string]bool{}
+			for _, l := range p.strs {
+				if flagRe.MatchString(l) && !seen[l] {
+					seen[l] = true
+					cnt[l]++
+				}
+			}
+		}
+		for l, c := range cnt {
+			if c == len(lp) {
+				flags = append(flags, l)
+			}
+		}
+	}
+	sort.Strings(flags)
+	for _, e := range d.stores(".Sseq.End") {
+		if !strings.HasPrefix(d.name(e.n, e.in.(*ssa.Store).Addr), "$0.datatypeDoc.") {
+			continue
+		}
+		lp, okl := d.localPaths(e.n, e.in, nil)
+		tied := okl && len(lp) > 0
+		for _, p := range lp {
+			for _, f := range flags {
+				if !has(p.strs, f) {
+					tied = false
+				}
+			}
+		}
+		r.Check(tied, owner+"/end of log written back only by a handler that read it", d.pos(u, e), fmt.Sprintf("guarded by %v like the initialisation of the server sequence", flags),
+			fmt.Sprintf("the handler's server sequence is taken from the recorded end of the log only under %v, but the end of the log is written back without that guard: a request that skipped the initialisation (a read-only one) sets the end of the log back to its own stale checkpoint, and the next writer is handed sequence numbers that already exist (F27)", flags))
+	}
+	r.Check(okEnd, owner+"/end of log", d.pos(u, upd), "Sseq.End = currentCP.Sseq before UpdateDatatype (skipped only for a read-only request)", "the recorded end of the log is not set from the handler's current server sequence before the datatype document is updated (or the store depends on something other than 'not read-only')"+endDetail)
 	r.Check(!d.reachable(upd, ins), owner+"/insert before update", d.pos(u, ins), "operations are inserted first", "the datatype document (checkpoint, end of log) is updated before the operations are stored: a crash in between acknowledges operations that are not in the log")
 	// at the function that contains both writes (directly or through helpers): the update is
 	// reached after the insert only on the insert's error-free edge
@@ -310,6 +398,12 @@ func ruleR06_4(w *World, r *Report) {
 				continue
 			}
 			cons := fnName(fn) + "/error of " + objName(o)
+			// enumerated exception: closing a cursor on the way out is clean-up; what the iteration itself
+			// produced is judged by the Err() clause below
+			if objName(o) == "Cursor.Close" {
+				r.OK(cons, u.Pos(ci.Pos()), "cursor clean-up (the iteration's own error is checked through Err())")
+				continue
+			}
 			call, isCall := ci.(*ssa.Call)
 			if !isCall {
 				r.Bad(cons, u.Pos(ci.Pos()), "a storage call is deferred or started as a goroutine: its error is lost")
@@ -327,6 +421,50 @@ func ruleR06_4(w *World, r *Report) {
 			}
 			r.Check(verdict, cons, u.Pos(call.Pos()), detail, detail)
 		}
+	}
+	// a cursor that is iterated has its Err() consulted afterwards: Next() returns false both at the end and on a
+	// failed getMore, and only Err() tells the two apart (a failed iteration must not pass for a short result)
+	for _, fn := range u.ordaFuncs(func(p string) bool { return p == pMongo }) {
+		var next, errc ssa.CallInstruction
+		for _, ci := range callsIn(fn) {
+			o := calleeObj(ci)
+			if o == nil {
+				continue
+			}
+			switch objName(o) {
+			case "Cursor.Next":
+				next = ci
+			case "Cursor.Err":
+				errc = ci
+			}
+		}
+		if next == nil {
+			continue
+		}
+		cons := fnName(fn) + "/iteration error consulted"
+		if errc == nil {
+			r.Bad(cons, u.Pos(next.Pos()), "the cursor is iterated with Next() but Err() is never consulted: a getMore that fails ends the loop like the end of the data, and the caller gets a truncated result without an error")
+			continue
+		}
+		call, _ := errc.(*ssa.Call)
+		checked := false
+		if call != nil {
+			forEachInstr(fn, func(in ssa.Instruction) {
+				ret, ok := in.(*ssa.Return)
+				if !ok || !returnsNonNilLast(ret) {
+					return
+				}
+				paths, _ := reachingLits(fn, nil, ret)
+				for _, p := range paths {
+					for _, l := range p {
+						if isNilCheckOf(l, ssa.Value(call), false) {
+							checked = true
+						}
+					}
+				}
+			})
+		}
+		r.Check(checked && reachableFrom(next.(ssa.Instruction), errc.(ssa.Instruction)), cons, u.Pos(errc.Pos()), "Err() != nil returns an error after the loop", "the result of cursor.Err() does not lead to an error return after the iteration")
 	}
 }
 
